@@ -55,7 +55,7 @@ def case_gen(draw, files=True):
     if files:
         case['compression'] = draw(st.sampled_from([None, 'gzip', 'zstd']))
         case['repeat'] = draw(st.sampled_from([1, 1, 40, 1500, 1500]))
-        case['pad'] = draw(st.sampled_from([0, 0, 7, 301]))
+        case['pad'] = draw(st.sampled_from([0, 7, 301, 301]))
         case['open_obj'] = draw(st.sampled_from([None, None, 'plain', 'short']))
         case['twin'] = draw(st.integers(0, 3)) == 0
         case['encoding'] = draw(st.sampled_from(['utf-8', 'utf-8', 'utf-16', 'utf-32']))
@@ -200,8 +200,8 @@ def check_files(case):
         r = drive.collect(rjson.load_from_file(f, compression=comp, encoding=enc, **kw))
         H.require_clean(r, 'load_from_file', **ctx)
         compare(items, r.items, ctx)
-        if case['open_obj'] and sorted(opened) != ['rb', 'wb']:
-            raise Violation('custom open_obj was called with modes %r' % opened, **ctx)
+        if case['open_obj'] and not (any('r' in m for m in opened) and any(('w' in m or 'a' in m or 'x' in m) for m in opened)):
+            raise Violation('the custom open_obj was not used for both the dump and the load (modes seen: %r)' % opened, **ctx)
     finally:
         shutil.rmtree(d, ignore_errors=True)
     lab = labels_of(case['items'])
@@ -213,7 +213,7 @@ def check_files(case):
 
 def subs(tier):
     return [
-        Sub('files', check_files, gen=case_gen, examples={'quick': 150, 'thorough': 8000},
+        Sub('files', check_files, gen=case_gen, examples={'quick': 180, 'thorough': 8000},
             doc='dump_to_file -> load_from_file for None/gzip/zstd, 0 objects .. several 64 KiB chunks, path / custom open_obj'),
         Sub('memory', check_memory, gen=lambda: case_gen(files=False), examples={'quick': 800, 'thorough': 60000},
             doc='dump -> line.unframe -> load in memory'),
